@@ -30,6 +30,9 @@
 //! `cuts` is `all` (every offset 0..=len) or a comma list.  These kinds also carry the L3 verdict.
 //!
 //! Implementation-only oracle:
+//!   hdrcut fmt seed n         raw (uncompressed) BAM / BCF stream with n records, cut at every offset
+//!                             up to the end of its header: the header read must fail below the
+//!                             header's end
 //!   file fmt seed p q         build a file of format fmt from the seed with noodles' writers, cut it
 //!                             (every offset when <= 4 KiB; block/container boundaries +-2, +17..19 and
 //!                             random offsets otherwise), read every prefix with the normal reader.
@@ -1322,6 +1325,103 @@ fn run_idxz(kind: &'static str, c: &Case) -> Obs {
 }
 
 // ---------------------------------------------------------------------------------------------
+// implementation-only: cuts inside the header of an uncompressed BAM / BCF stream
+
+/// (header or how reading it failed, records read behind it, how the record loop stopped)
+fn read_raw_with_header(is_bam: bool, bytes: &[u8]) -> (Result<String, Stop>, usize, Stop) {
+    let mut hdr: Result<String, Stop> = Err(Stop::Eof);
+    let mut n = 0;
+    let r = nv::guarded(AssertUnwindSafe(|| -> std::io::Result<()> {
+        if is_bam {
+            let mut r = bam::io::Reader::from(bytes);
+            let h = r.read_header()?;
+            hdr = Ok(render(&h));
+            let mut rec = bam::Record::default();
+            while r.read_record(&mut rec)? != 0 {
+                n += 1;
+            }
+        } else {
+            let mut r = bcf::io::Reader::from(bytes);
+            let h = r.read_header()?;
+            hdr = Ok(render(&h));
+            let mut rec = bcf::Record::default();
+            while r.read_record(&mut rec)? != 0 {
+                n += 1;
+            }
+        }
+        Ok(())
+    }));
+    let stop = match r {
+        Outcome::Done(Ok(())) => Stop::Eof,
+        Outcome::Done(Err(e)) => Stop::Err(nv::errkind(&e)),
+        Outcome::Panicked(m) => Stop::Panic(m),
+    };
+    if hdr.is_err() {
+        hdr = Err(stop.clone());
+    }
+    (hdr, n, stop)
+}
+
+/// kind hdrcut fmt seed n: every cut up to the end of the header of a raw BAM / BCF stream.  A
+/// header read from a stream that ends inside the header must be an error (BAM: always was; BCF:
+/// since repair b36f6c8 the header text reader demands all l_text bytes, NUL terminator
+/// included); a header returned without error is the class `<fmt>-truncated-header-text-accepted`.
+fn run_hdrcut(c: &Case) -> Obs {
+    let is_bam = c.args[0] == "bam";
+    let fmt = if is_bam { "bam" } else { "bcf" };
+    let mut rng = Rng::new(c.u(1));
+    let n = c.u(2);
+    let (raw, hdr) = if is_bam {
+        let t = files::sam_text(&mut rng, n, false, false);
+        let (r, h, _) = files::bam_raw(&t);
+        (r, h)
+    } else {
+        let t = files::vcf_text(&mut rng, n, false);
+        let (r, h, _) = files::bcf_raw(&t);
+        (r, h)
+    };
+    let file = Arc::new(raw);
+    let cuts: Vec<usize> = if hdr <= 4096 { (0..=hdr).collect() } else { choose_cuts(&mut rng, hdr, &[9, hdr], 300) };
+    let (intact, _, _) = read_raw_with_header(is_bam, &file[..hdr]);
+    let Ok(intact) = intact else {
+        return Obs::fail("-", &format!("{fmt}-intact-file-unreadable"), "header");
+    };
+    let mut fails = Vec::new();
+    let (mut n_err, mut n_same) = (0, 0);
+    for (k, r) in sweep(&file, &cuts, move |p| read_raw_with_header(is_bam, p)) {
+        let Some((h, nrec, stop)) = r else {
+            fails.push(hang(fmt, k));
+            break;
+        };
+        match h {
+            Err(Stop::Panic(m)) => fails.push((format!("panic-{fmt}"), format!("header cut {k}: {m}"))),
+            Err(_) => {
+                n_err += 1;
+                if k == hdr {
+                    fails.push((format!("{fmt}-intact-file-unreadable"), format!("header cut {k}")));
+                }
+            }
+            Ok(h) => {
+                if let Stop::Panic(m) = &stop {
+                    fails.push((format!("panic-{fmt}"), format!("header cut {k}: {m}")));
+                } else if k < hdr {
+                    let what = if h != intact { "a different header" } else { "the written header" };
+                    fails.push((format!("{fmt}-truncated-header-text-accepted"), format!("header cut {k} of {hdr}: {what} is returned without error, then {nrec} records and {}", stop.text())));
+                } else if h != intact {
+                    fails.push((format!("{fmt}-intact-file-unreadable"), format!("header cut {k}: a different header")));
+                } else if nrec != 0 {
+                    fails.push((format!("{fmt}-truncation-fabricated-record"), format!("header cut {k}: {nrec} records")));
+                } else {
+                    n_same += (k < hdr) as usize;
+                }
+            }
+        }
+    }
+    let _ = n_same;
+    Obs { obs: "-".into(), verdict: "ok".into(), nontrivial: n_err > 8 }.with_verdict(first_fail(fails))
+}
+
+// ---------------------------------------------------------------------------------------------
 // implementation-only oracle over generated files of every format
 
 /// offsets at which a field group of a well-formed BAI starts
@@ -1650,6 +1750,7 @@ fn run(c: &Case) -> Obs {
         "csiz" => run_idxz("csi", c),
         "tbiz" => run_idxz("tbi", c),
         "file" => run_file(c),
+        "hdrcut" => run_hdrcut(c),
         _ => Obs { obs: "-".into(), verdict: "skip".into(), nontrivial: false },
     }
 }
@@ -1848,6 +1949,13 @@ fn generate(rng: &mut Rng, tier: &str, w: &mut CaseWriter) {
         w.push("fai", vec![hex(&text), "all".into()]);
         let text = index::gunzip(&files::crai_file(rng));
         w.push("crai", vec![hex(&text), "all".into()]);
+    }
+
+    // --- implementation-only: every cut inside the header of a raw BAM / BCF stream
+    for _ in 0..(3 * scale) {
+        for fmt in ["bam", "bcf"] {
+            w.push("hdrcut", vec![fmt.into(), rng.next().to_string(), rng.range(0, 3).to_string()]);
+        }
     }
 
     // --- implementation-only: every format, files built in `run` from the seed
